@@ -77,7 +77,8 @@ def exec_monitor(run):
     a batch that would start an operator with an unfinished parent ends in the dependency error"""
     w = run.w
     for t, e in enumerate(run.trace):
-        for phase, sts in (('scheduler', e.get('pre_states')), ('executor', e.get('states') if not e['err'] else None)):
+        for phase, sts in (('scheduler', e.get('pre_states')), ('executor', e.get('states') if not e['err'] else None),
+                           ('refusal of the command', e.get('states') if e['err'] else None)):
             if not sts:
                 continue
             for i, o in enumerate(w.ops):
